@@ -5,6 +5,9 @@ anything other than "silent" is printed.  Transformations:
   rename   - every local variable of the function (not parameters, not names shared with nested scopes) gets a new name
   rettemp  - `return <expr>` becomes `_result = <expr>; return _result`
   kwargs   - positional arguments of calls of package functions are passed by keyword (where the callee is unambiguous)
+  ifswap   - `if c: A else: B` -> `if not c: B else: A`
+  cmpswap  - `a < b` -> `b > a`, `a == b` -> `b == a` (side-effect-free operands)
+  extract  - a call nested as first argument of a call gets a name of its own on the line before
 usage: python3-vt tools/fuzz_neutral.py [--only processing,smoothing] [--kinds rename,rettemp] [--at C03,C05] [--limit N]"""
 import ast, copy, os, sys, time
 from concurrent.futures import ProcessPoolExecutor
@@ -116,6 +119,64 @@ def to_keywords(fn, cname):
     return done
 
 
+def if_swap(fn):
+    """`if c: A else: B` (no elif chain on the else side) becomes `if not c: B else: A`."""
+    done = False
+    for node in ast.walk(fn):
+        if isinstance(node, ast.If) and node.orelse and not (len(node.orelse) == 1 and isinstance(node.orelse[0], ast.If)):
+            node.test = ast.UnaryOp(op=ast.Not(), operand=node.test)
+            node.body, node.orelse = node.orelse, node.body
+            done = True
+    ast.fix_missing_locations(fn)
+    return done
+
+
+def cmp_swap(fn):
+    """`a < b` -> `b > a`, `a == b` -> `b == a` (single comparisons of side-effect-free operands: names, attributes, constants, subscripts)."""
+    def simple(e):
+        return all(isinstance(x, (ast.Name, ast.Attribute, ast.Constant, ast.Subscript, ast.Load, ast.UnaryOp, ast.USub, ast.BinOp, ast.operator, ast.Tuple, ast.Slice)) for x in ast.walk(e))
+    flip = {ast.Lt: ast.Gt, ast.Gt: ast.Lt, ast.LtE: ast.GtE, ast.GtE: ast.LtE, ast.Eq: ast.Eq, ast.NotEq: ast.NotEq}
+    done = False
+    for node in ast.walk(fn):
+        if isinstance(node, ast.Compare) and len(node.ops) == 1 and type(node.ops[0]) in flip and simple(node.left) and simple(node.comparators[0]):
+            node.left, node.comparators[0] = node.comparators[0], node.left
+            node.ops = [flip[type(node.ops[0])]()]
+            done = True
+    return done
+
+
+def extract_args(fn):
+    """The first call nested as an argument of a call in an assignment / return / expression statement gets a name of its own on
+    the line before (evaluation order is kept: it is the first thing the statement evaluates among its calls only when it is the
+    first argument - so only first positional arguments of a top-level call are extracted)."""
+    done = False
+    k = 0
+    for node in ast.walk(fn):
+        for fld in ("body", "orelse", "finalbody"):
+            block = getattr(node, fld, None)
+            if not (isinstance(block, list) and block and isinstance(block[0], ast.stmt)):
+                continue
+            i = 0
+            while i < len(block):
+                st = block[i]
+                v = st.value if isinstance(st, (ast.Assign, ast.Return, ast.Expr)) else None
+                if isinstance(v, ast.Call) and isinstance(v.func, (ast.Name, ast.Attribute)) and v.args and isinstance(v.args[0], ast.Call) \
+                        and all(isinstance(x, (ast.Name, ast.Attribute, ast.Load)) for x in ast.walk(v.func)):
+                    k += 1
+                    tmp = f"_arg{k}_ex"
+                    block.insert(i, ast.copy_location(ast.Assign(targets=[ast.Name(id=tmp, ctx=ast.Store())], value=v.args[0]), st))
+                    v.args[0] = ast.Name(id=tmp, ctx=ast.Load())
+                    done = True
+                    i += 1
+                i += 1
+    ast.fix_missing_locations(fn)
+    return done
+
+
+TRANSFORMS = {"rename": lambda fn, c: rename_locals(fn), "rettemp": lambda fn, c: ret_temp(fn), "kwargs": lambda fn, c: to_keywords(fn, c),
+              "ifswap": lambda fn, c: if_swap(fn), "cmpswap": lambda fn, c: cmp_swap(fn), "extract": lambda fn, c: extract_args(fn)}
+
+
 def variants(only, kinds):
     out = []
     for p in sorted(PKG.glob("*.py")):
@@ -129,7 +190,7 @@ def variants(only, kinds):
             for kind in kinds:
                 tree = copy.deepcopy(tree0)
                 fn = [f for _c, f in functions(tree)][idx - 1]
-                ok = rename_locals(fn) if kind == "rename" else ret_temp(fn) if kind == "rettemp" else to_keywords(fn, cname)
+                ok = TRANSFORMS[kind](fn, cname)
                 if not ok:
                     continue
                 out.append((f"{kind}:{p.stem}.{cname + '.' if cname else ''}{fn.name}", f"hvsrpy/{p.name}", ast.unparse(tree)))
